@@ -5,7 +5,11 @@
 // here is compiled without the tag.
 package security
 
-import "time"
+import (
+	"time"
+
+	"github.com/bbockelm/cedar/stream"
+)
 
 // VerifShiftExpiration moves the entry's expiry by d (virtual time: shifting
 // every entry by -d is the same as advancing the clock by d). A zero
@@ -40,4 +44,27 @@ func (c *SessionCache) VerifSessionKeys() map[string]*SessionEntry {
 		out[k] = v
 	}
 	return out
+}
+
+// VerifStoreClientSession runs the real storeClientSession as performFullAuthentication
+// does after a post-auth ad that announced session id sid, user, the ValidCommands
+// string, SessionDuration and SessionLease, with the given negotiated key (nil = none).
+// The stream may be nil when cfg.PeerName names the server.
+func VerifStoreClientSession(cfg *SecurityConfig, s *stream.Stream, sid, user, validCommands string, key []byte, crypto CryptoMethod, durationSecs, leaseSecs int, cache *SessionCache) {
+	a := &Authenticator{config: cfg, stream: s}
+	neg := &SecurityNegotiation{
+		ClientConfig: cfg, ServerConfig: &SecurityConfig{}, IsClient: true,
+		SessionId: sid, User: user, ValidCommands: validCommands,
+		NegotiatedAuth: AuthNone, NegotiatedCrypto: crypto,
+	}
+	if key != nil {
+		neg.setSharedSecret(key)
+	}
+	serverAddr := cfg.PeerName
+	if serverAddr == "" && s != nil {
+		serverAddr = s.GetPeerAddr()
+	}
+	if sid != "" && serverAddr != "" {
+		a.storeClientSession(neg, durationSecs, leaseSecs, cache)
+	}
 }
